@@ -168,7 +168,7 @@ def compare_content(got, want, tol_rel, ctx, oracle, fmt, exact=False):
 
 class C08(World):
     ID = "C08"
-    RUNS = {"quick": 12000, "thorough": 1200000}
+    RUNS = {"quick": 30000, "thorough": 1200000}
     WALL = {"quick": 110.0, "thorough": 1700.0}
     BLOCK = 50
     RULE = (
